@@ -87,6 +87,8 @@ func (vc *VC) resolveType(text string, pkg *types.Package) *SType {
 		return stBytes
 	case "Str":
 		return stStr
+	case "Iface":
+		return &SType{Sort: "Iface"}
 	}
 	for _, s := range vc.db.Sorts {
 		if s == text {
@@ -213,26 +215,91 @@ func (vc *VC) declarePure(pf *PureFunc) (params []*SType, res *SType) {
 	return
 }
 
-// emitAxioms adds all axioms of the spec DB to the background (once per VC).
-func (vc *VC) emitAxioms() {
+// emitAxioms is kept for call sites; axioms are selected lazily by finalizeAxioms.
+func (vc *VC) emitAxioms() {}
+
+// specMentions collects the pure-function names called in a spec expression.
+func specMentions(x SExpr, out map[string]bool) {
+	switch n := x.(type) {
+	case *SUnary:
+		specMentions(n.X, out)
+	case *SBinary:
+		specMentions(n.X, out)
+		specMentions(n.Y, out)
+	case *SCall:
+		out[n.Fn] = true
+		for _, a := range n.Args {
+			specMentions(a, out)
+		}
+	case *SField:
+		specMentions(n.X, out)
+	case *SIndex:
+		specMentions(n.X, out)
+		specMentions(n.I, out)
+	case *SSlice:
+		specMentions(n.X, out)
+		if n.Lo != nil {
+			specMentions(n.Lo, out)
+		}
+		if n.Hi != nil {
+			specMentions(n.Hi, out)
+		}
+	case *SUpdate:
+		specMentions(n.X, out)
+		specMentions(n.K, out)
+		specMentions(n.V, out)
+	case *SOld:
+		specMentions(n.X, out)
+	case *SQuant:
+		specMentions(n.Body, out)
+	case *SDeref:
+		specMentions(n.X, out)
+	}
+}
+
+// finalizeAxioms selects the axioms relevant to this VC: an axiom is included when it
+// mentions an (uninterpreted) pure function that the VC uses; closure under the axioms'
+// own mentions. Irrelevant quantified axioms only make the solvers weaker.
+func (vc *VC) finalizeAxioms() {
 	if vc.axiomsDone {
 		return
 	}
 	vc.axiomsDone = true
-	for _, ax := range vc.db.Axioms {
-		func() {
-			defer func() {
-				if r := recover(); r != nil {
-					if se, ok := r.(specErr); ok {
-						panic(specErr{fmt.Sprintf("axiom %s (%s): %s", ax.Name, ax.File, se.msg)})
-					}
-					panic(r)
+	included := map[*Axiom]bool{}
+	for changed := true; changed; {
+		changed = false
+		for _, ax := range vc.db.Axioms {
+			if included[ax] {
+				continue
+			}
+			m := map[string]bool{}
+			specMentions(ax.Expr, m)
+			rel := false
+			for fn := range m {
+				if pf, ok := vc.db.Pures[fn]; ok && pf.Body == nil && vc.usedPures[fn] {
+					rel = true
 				}
+			}
+			if !rel {
+				continue
+			}
+			included[ax] = true
+			changed = true
+			func() {
+				defer func() {
+					if r := recover(); r != nil {
+						if se, ok := r.(specErr); ok {
+							panic(specErr{fmt.Sprintf("axiom %s (%s): %s", ax.Name, ax.File, se.msg)})
+						}
+						panic(r)
+					}
+				}()
+				env := &SpecEnv{vc: vc, names: map[string]SVal{}, pkg: vc.pkgByRel(ax.Pkg)}
+				t := env.evalBool(ax.Expr)
+				vc.axiomDecls = append(vc.axiomDecls, "(assert "+t+")")
+				vc.axiomNames = append(vc.axiomNames, ax.Name)
 			}()
-			env := &SpecEnv{vc: vc, names: map[string]SVal{}, pkg: vc.pkgByRel(ax.Pkg)}
-			t := env.evalBool(ax.Expr)
-			vc.permDecls = append(vc.permDecls, "(assert "+t+")")
-		}()
+		}
 	}
 }
 
@@ -459,7 +526,12 @@ func (e *SpecEnv) evalIndex(n *SIndex) SVal {
 		return SVal{sel(v.T, k), v.Ty.Val}
 	}
 	if v.Ty.Sort == "Bytes" {
-		return SVal{fmt.Sprintf("(Bytes_at %s %s)", v.T, e.evalInt(n.I)), stInt}
+		i := e.evalInt(n.I)
+		if src, ok := vc.bseqSrc[v.T]; ok {
+			// the Bytes value abstracts a known array segment: read the array directly when in range
+			return SVal{fmt.Sprintf("(ite (and (<= 0 %s) (< %s %s)) %s (Bytes_at %s %s))", i, i, src[2], sel(src[0], addT(src[1], i)), v.T, i), stInt}
+		}
+		return SVal{fmt.Sprintf("(Bytes_at %s %s)", v.T, i), stInt}
 	}
 	switch u := goUnder(v.Ty).(type) {
 	case *types.Slice:
@@ -592,6 +664,9 @@ func (e *SpecEnv) evalCall(n *SCall) SVal {
 			return SVal{"(Str_len " + v.T + ")", stInt}
 		}
 		if v.Ty.Sort == "Bytes" {
+			if src, ok := vc.bseqSrc[v.T]; ok {
+				return SVal{src[2], stInt}
+			}
 			return SVal{"(Bytes_len " + v.T + ")", stInt}
 		}
 		specFail("len of %s", v.Ty.Sort)
@@ -690,6 +765,7 @@ func (e *SpecEnv) evalCall(n *SCall) SVal {
 		return SVal{fmt.Sprintf("(go_mod %s %s)", e.evalInt(n.Args[0]), e.evalInt(n.Args[1])), stInt}
 	}
 	if pf, ok := vc.db.Pures[n.Fn]; ok {
+		vc.usedPures[n.Fn] = true
 		params, res := vc.declarePure(pf)
 		if len(params) != len(n.Args) {
 			specFail("wrong number of arguments to %s", n.Fn)
